@@ -59,6 +59,7 @@ struct End {                  // one end of a stream socket or pipe
   Creds peer_creds;           // what SO_PEERCRED at this end reports
   int refs = 1;               // fd-table entries + actor/process holders
   uint64_t bytes_in = 0, bytes_out = 0;
+  uint64_t peer_consumed = 0;   // bytes written at this end that the other end has actually read (survives the other end's close)
 };
 
 struct Listener {
